@@ -43,3 +43,34 @@ Theorem C01_empty_chunks_irrelevant : forall f cs,
   is_static f = true -> run f (filter nonempty cs) = run f cs.
 Proof. exact empty_chunks_irrelevant. Qed.
 Print Assumptions C01_empty_chunks_irrelevant.
+
+(* capture_slice: a fixed region (no min_length) that is still empty when the stream position is
+   p <= offset holds after ANY chunk list — empty chunks included — exactly stream[off : off+len].
+   [feed] is what FileInspector._capture does to one region over successive chunks. *)
+Theorem C01_capture_slice : forall r st cs,
+  r_end r = false -> r_min r = None -> r_data r = [] -> blen st <= r_off r ->
+  r_data (feed r (blen st) cs) = bslice (r_off r) (r_len r) (st ++ concat cs).
+Proof. exact capture_slice. Qed.
+Print Assumptions C01_capture_slice.
+
+Example C01_capture_slice_ex :
+  r_data (feed (mkRegion 0 false 3 4 None [] false) (blen [1;2]) [[3;4]; []; [5;6;7;8;9]]) = [4;5;6;7].
+Proof. reflexivity. Qed.
+
+(* end_capture_tail: an EndCaptureRegion(n) present (empty) from stream position p0 holds, after any
+   chunk list and finish, the last min(n, total - p0) bytes, and is complete iff that is n. *)
+Theorem C01_end_capture_tail : forall r p0 cs,
+  r_end r = true -> r_min r = None -> 0 < r_len r -> r_data r = [] ->
+  let r' := set_fin (feed r p0 cs) true in
+  r_data r' = btail (r_len r) (concat cs) /\
+  blen (r_data r') = N.min (r_len r) (blen (concat cs)) /\
+  (rcomplete r' = true <-> r_len r <= blen (concat cs)).
+Proof. exact end_capture_tail. Qed.
+Print Assumptions C01_end_capture_tail.
+
+Example C01_end_capture_tail_ex :
+  r_data (set_fin (feed (mkRegion 0 true 3 3 None [] false) 10 [[1;2]; []; [3;4;5]]) true) = [3;4;5].
+Proof. reflexivity. Qed.
+
+Example C01_ireach_ex : ireach ([] ++ [75; 68; 77; 86]) (fst (eat (init F_vmdk) [75; 68; 77; 86])).
+Proof. eapply ireach_eat with (e := snd (eat (init F_vmdk) [75; 68; 77; 86])); [apply ireach_init | apply surjective_pairing]. Qed.
